@@ -21,6 +21,30 @@ pub struct AG {
 
 pub const GARBAGE_W: i64 = -999_983;
 
+/// edge weight types the encodings can be built with (floats are exact: small integers)
+pub trait EW: Copy + PartialEq + PartialOrd + std::fmt::Debug + 'static {
+    fn from_i64(x: i64) -> Self;
+    fn to_i64(self) -> i64;
+}
+impl EW for i64 {
+    fn from_i64(x: i64) -> Self { x }
+    fn to_i64(self) -> i64 { self }
+}
+impl EW for i32 {
+    fn from_i64(x: i64) -> Self { x as i32 }
+    fn to_i64(self) -> i64 { self as i64 }
+}
+impl EW for f64 {
+    fn from_i64(x: i64) -> Self { x as f64 }
+    fn to_i64(self) -> i64 { if self.is_infinite() { INF } else { self as i64 } }
+}
+impl EW for f32 {
+    fn from_i64(x: i64) -> Self { x as f32 }
+    fn to_i64(self) -> i64 { if self.is_infinite() { INF } else { self as i64 } }
+}
+/// "infinite" / max() distance as recorded for the oracles
+pub const INF: i64 = 1_000_000_000;
+
 impl AG {
     /// no two edges between the same ordered (unordered if undirected) pair
     pub fn is_simple(&self) -> bool {
@@ -58,8 +82,8 @@ fn orders(ag: &AG, hist: usize, rng: &mut Rng) -> (Vec<usize>, Vec<usize>) {
 
 macro_rules! build_indexed {
     ($name:ident, $G:ident) => {
-        pub fn $name<Ty: EdgeType>(ag: &AG, hist: usize, rng: &mut Rng) -> ($G<i32, i64, Ty, u32>, Vec<NodeIndex<u32>>) {
-            let mut g: $G<i32, i64, Ty, u32> = $G::with_capacity(0, 0);
+        pub fn $name<Ty: EdgeType, E: EW>(ag: &AG, hist: usize, rng: &mut Rng) -> ($G<i32, E, Ty, u32>, Vec<NodeIndex<u32>>) {
+            let mut g: $G<i32, E, Ty, u32> = $G::with_capacity(0, 0);
             let (no, eo) = orders(ag, hist, rng);
             let garbage = hist == 2;
             let mut ids: Vec<Option<NodeIndex<u32>>> = vec![None; ag.n];
@@ -82,13 +106,13 @@ macro_rules! build_indexed {
                     let all: Vec<NodeIndex<u32>> = g.node_indices().collect();
                     let a = all[rng.below(all.len())];
                     let b = all[rng.below(all.len())];
-                    g.add_edge(a, b, GARBAGE_W);
+                    g.add_edge(a, b, E::from_i64(GARBAGE_W));
                 }
-                g.add_edge(ids[s].unwrap(), ids[t].unwrap(), w);
+                g.add_edge(ids[s].unwrap(), ids[t].unwrap(), E::from_i64(w));
             }
             if garbage {
                 // remove garbage edges between real nodes, then the junk nodes (with their edges)
-                g.retain_edges(|fz, e| fz[e] != GARBAGE_W);
+                g.retain_edges(|fz, e| fz[e] != E::from_i64(GARBAGE_W));
                 g.retain_nodes(|fz, a| fz[a] != -1);
             }
             // node weights identify the abstract nodes whatever renumbering happened
@@ -105,10 +129,10 @@ build_indexed!(build_stable, StableGraph);
 
 pub type MIx = petgraph::matrix_graph::NodeIndex<u16>;
 
-pub type Mx<Ty> = MatrixGraph<i32, i64, std::collections::hash_map::RandomState, Ty>;
+pub type Mx<Ty, E> = MatrixGraph<i32, E, std::collections::hash_map::RandomState, Ty>;
 
-pub fn build_matrix<Ty: EdgeType>(ag: &AG, hist: usize, rng: &mut Rng) -> (Mx<Ty>, Vec<MIx>) {
-    let mut g: Mx<Ty> = MatrixGraph::with_capacity(if hist == 0 { ag.n } else { 0 });
+pub fn build_matrix<Ty: EdgeType, E: EW>(ag: &AG, hist: usize, rng: &mut Rng) -> (Mx<Ty, E>, Vec<MIx>) {
+    let mut g: Mx<Ty, E> = MatrixGraph::with_capacity(if hist == 0 { ag.n } else { 0 });
     let (no, eo) = orders(ag, hist, rng);
     let garbage = hist == 2;
     let mut ids: Vec<Option<MIx>> = vec![None; ag.n];
@@ -130,10 +154,10 @@ pub fn build_matrix<Ty: EdgeType>(ag: &AG, hist: usize, rng: &mut Rng) -> (Mx<Ty
             let a = junk[rng.below(junk.len())];
             let b = ids[no[rng.below(no.len())]].unwrap();
             if !g.has_edge(a, b) {
-                g.add_edge(a, b, GARBAGE_W);
+                g.add_edge(a, b, E::from_i64(GARBAGE_W));
             }
         }
-        g.add_edge(ids[s].unwrap(), ids[t].unwrap(), w);
+        g.add_edge(ids[s].unwrap(), ids[t].unwrap(), E::from_i64(w));
     }
     for j in junk {
         g.remove_node(j);
@@ -145,8 +169,8 @@ pub fn map_key(i: usize) -> i32 {
     ((i as i32) * 7 + 3) % 64 + (i as i32) * 64
 }
 
-pub fn build_map<Ty: EdgeType>(ag: &AG, hist: usize, rng: &mut Rng) -> (GraphMap<i32, i64, Ty>, Vec<i32>) {
-    let mut g: GraphMap<i32, i64, Ty> = GraphMap::with_capacity(0, 0);
+pub fn build_map<Ty: EdgeType, E: EW>(ag: &AG, hist: usize, rng: &mut Rng) -> (GraphMap<i32, E, Ty>, Vec<i32>) {
+    let mut g: GraphMap<i32, E, Ty> = GraphMap::with_capacity(0, 0);
     let (no, eo) = orders(ag, hist, rng);
     let garbage = hist == 2;
     let mut junk = vec![];
@@ -161,9 +185,9 @@ pub fn build_map<Ty: EdgeType>(ag: &AG, hist: usize, rng: &mut Rng) -> (GraphMap
     for &k in &eo {
         let (s, t, w) = ag.edges[k];
         if garbage && rng.chance(1, 3) && !junk.is_empty() {
-            g.add_edge(junk[rng.below(junk.len())], map_key(rng.below(ag.n)), GARBAGE_W);
+            g.add_edge(junk[rng.below(junk.len())], map_key(rng.below(ag.n)), E::from_i64(GARBAGE_W));
         }
-        g.add_edge(map_key(s), map_key(t), w);
+        g.add_edge(map_key(s), map_key(t), E::from_i64(w));
     }
     for j in junk {
         g.remove_node(j);
@@ -172,29 +196,29 @@ pub fn build_map<Ty: EdgeType>(ag: &AG, hist: usize, rng: &mut Rng) -> (GraphMap
 }
 
 /// Csr: nodes 0..n-1 in order (no removal exists); edges in any order. Simple graphs only.
-pub fn build_csr<Ty: EdgeType>(ag: &AG, hist: usize, rng: &mut Rng) -> (Csr<i32, i64, Ty, u32>, Vec<u32>) {
-    let mut g: Csr<i32, i64, Ty, u32> = Csr::new();
+pub fn build_csr<Ty: EdgeType, E: EW>(ag: &AG, hist: usize, rng: &mut Rng) -> (Csr<i32, E, Ty, u32>, Vec<u32>) {
+    let mut g: Csr<i32, E, Ty, u32> = Csr::new();
     for i in 0..ag.n {
         g.add_node(i as i32);
     }
     let (_, eo) = orders(ag, hist, rng);
     for &k in &eo {
         let (s, t, w) = ag.edges[k];
-        g.add_edge(s as u32, t as u32, w);
+        g.add_edge(s as u32, t as u32, E::from_i64(w));
     }
     (g, (0..ag.n as u32).collect())
 }
 
 /// adj::List: directed only, nodes 0..n-1 in order, parallel edges allowed.
-pub fn build_list(ag: &AG, hist: usize, rng: &mut Rng) -> (List<i64, u32>, Vec<u32>) {
-    let mut g: List<i64, u32> = List::with_capacity(0);
+pub fn build_list<E: EW>(ag: &AG, hist: usize, rng: &mut Rng) -> (List<E, u32>, Vec<u32>) {
+    let mut g: List<E, u32> = List::with_capacity(0);
     for _ in 0..ag.n {
         g.add_node();
     }
     let (_, eo) = orders(ag, hist, rng);
     for &k in &eo {
         let (s, t, w) = ag.edges[k];
-        g.add_edge(s as u32, t as u32, w);
+        g.add_edge(s as u32, t as u32, E::from_i64(w));
     }
     (g, (0..ag.n as u32).collect())
 }
